@@ -12,15 +12,13 @@ Trace == ndJsonDeserialize(IOEnv.TRACE_FILE)
 
 HwReg == 1     \* TLC register: highest l reached in any explored state (needs -workers 1)
 
-InitHw == TLCSet(HwReg, 1)
+InitHw == TLCSet(HwReg, 1) /\ TLCSet(2, {})
 BumpHw(n) == IF n > TLCGet(HwReg) THEN TLCSet(HwReg, n) ELSE TRUE
 
 TraceAccepted ==
   /\ PrintT(<<"HW", TLCGet(HwReg), Len(Trace)>>)
+  /\ PrintT(<<"USED", TLCGet(2)>>)
   /\ TLCGet(HwReg) = Len(Trace) + 1
-
-\* sequence -> set
-ToSet(s) == {s[i] : i \in 1..Len(s)}
 
 \* does record r have field f (JSON objects become records)
 Has(r, f) == f \in DOMAIN r
